@@ -91,22 +91,30 @@ def wantUnit (script : List SOp) (items : List Item) (data : Bytes) (dataAbs : N
   let itemOf := fun (it : Item) =>
     -- the text a reader classifies: whole literal (for #H… the digits, the type tells the rest)
     (it.type, (data.drop it.off).take it.len)
-  let rec go : List SOp → List Item → Bool → Bool → Bool → List Want → List Want
-    -- (script, remaining items, stopOnFail, anyError, retErr) accumulating
+  let rec go : List SOp → List Item → Bool → Bool → Nat → List Want → List Want
+    -- (script, remaining items, stopOnFail, anyError, bytes still announced for the open block) accumulating
     | [], rest, _, anyErr, _, acc =>
       let acc := if !rest.isEmpty ∧ !anyErr then acc ++ [.err (-108) "unread_parameters"] else acc
       acc
-    | op :: ops, rest, stop, anyErr, _, acc =>
+    | op :: ops, rest, stop, anyErr, remaining, acc =>
       match op with
       | .ret ok =>
         let acc := if !ok ∧ !anyErr then acc ++ [.err (-200) "execution_error"] else acc
         let anyErr := anyErr || !ok
         if !rest.isEmpty ∧ !anyErr then acc ++ [.err (-108) "unread_parameters"] else acc
-      | .onFail s => go ops rest s anyErr false acc
-      | .ePush code _ => go ops rest stop true false (acc ++ [.err code "script_error"])
-      | .iTag => go ops rest stop anyErr false (acc ++ [.other "G"])
-      | .iNums .. => go ops rest stop anyErr false (acc ++ [.other "U"])
-      | .rBlockData _ | .rArrBin .. => go ops rest stop anyErr false acc      -- may push -310; tolerated as optional below
+      | .onFail s => go ops rest s anyErr remaining acc
+      | .ePush code _ => go ops rest stop true remaining (acc ++ [.err code "script_error"])
+      | .iTag => go ops rest stop anyErr remaining (acc ++ [.other "G"])
+      | .iNums .. => go ops rest stop anyErr remaining (acc ++ [.other "U"])
+      | .rBlockHeader n => go ops rest stop anyErr n acc
+      | .rBlock _ => go ops rest stop anyErr 0 acc
+      | .rBlockData d =>
+        -- a chunk beyond the announced length is refused with -310
+        if d.length > remaining then go ops rest stop true remaining (acc ++ [.err (-310) "block_overlength"])
+        else go ops rest stop anyErr (remaining - d.length) acc
+      | .rArrBin sz _ _ =>
+        if sz == 1 ∨ sz == 2 ∨ sz == 4 ∨ sz == 8 then go ops rest stop anyErr 0 acc
+        else go ops rest stop true remaining (acc ++ [.err (-310) "array_item_size"])
       | .pArrInt w s cap m =>
         -- up to cap integers; the first follows `m`, the others are optional
         let rd := Reader.int w s
@@ -120,10 +128,10 @@ def wantUnit (script : List SOp) (items : List Item) (data : Bytes) (dataAbs : N
         let acc := acc ++ errs.map (fun e => Want.err e "array_element") ++ [.reader "A" ok "array" (fun _ => [])]
         if !ok ∧ stop then
           (if errs.isEmpty then acc ++ [.err (-200) "execution_error"] else acc)
-        else go ops rest' stop (anyErr || !errs.isEmpty) false acc
+        else go ops rest' stop (anyErr || !errs.isEmpty) remaining acc
       | _ =>
         match readerLetter op with
-        | none => go ops rest stop anyErr false acc
+        | none => go ops rest stop anyErr remaining acc
         | some letter =>
           let (rd, mand) : Reader × Bool := match op with
             | .pInt w s m => (.int w s, m) | .pFloat d m => (.float d, m) | .pBool m => (.bool, m)
@@ -133,7 +141,7 @@ def wantUnit (script : List SOp) (items : List Item) (data : Bytes) (dataAbs : N
           match expect rd mand (it.map itemOf) with
           | .ok =>
             let chk := match it with | some i => valueCheck op i data dataAbs | none => fun _ => []
-            go ops (rest.drop 1) stop anyErr false (acc ++ [.reader letter true "valid_item" chk])
+            go ops (rest.drop 1) stop anyErr remaining (acc ++ [.reader letter true "valid_item" chk])
           | .fail e =>
             let acc := acc ++ (match e with | some x => [Want.err x "reader_error"] | none => []) ++ [.reader letter false "invalid_or_absent" (fun _ => [])]
             let anyErr' := anyErr || e.isSome
@@ -141,8 +149,8 @@ def wantUnit (script : List SOp) (items : List Item) (data : Bytes) (dataAbs : N
               -- the handler returns ERR at once
               let acc := if !anyErr' then acc ++ [.err (-200) "execution_error"] else acc
               acc      -- unread parameters are not reported once an error was raised
-            else go ops (rest.drop 1) stop anyErr' false acc
-  go script items false false false [.handler]
+            else go ops (rest.drop 1) stop anyErr' remaining acc
+  go script items false false 0 [.handler]
 
 def okOf (tok : String) : Option Bool :=
   match tok.toList with
@@ -153,14 +161,11 @@ def okOf (tok : String) : Option Bool :=
 /-- match the tokens of one handler invocation against the expectation; returns (clauses, remaining tokens) -/
 def matchWant : List Want → List String → List String × List String
   | [], rest =>
-    -- a refused block data chunk may have pushed -310
-    ([], rest.dropWhile (fun t => t == "E-310"))
+    ([], rest)
   | w :: ws, toks =>
     match toks with
     | t :: ts =>
-      let wantsSysErr : Bool := match w with | .err (-310) _ => true | _ => false
-      if t == "E-310" && !wantsSysErr then matchWant (w :: ws) ts
-      else match w with
+      match w with
         | .handler => if t.startsWith "H" then matchWant ws ts else (["C05.unexpected_event"], [])
         | .other l => if t.startsWith l then matchWant ws ts else (["C05.unexpected_event"], [])
         | .err code why =>
